@@ -168,9 +168,10 @@ template<class C> static inline const C &vp_size(int id, const C &c)
 }
 #define VSZ(id, c) vp_size((id), (c))
 #else
-#define VP(id, e) __extension__({ __typeof__(e) vp_v_ = (e); \
-    vp_obs((id), ((__typeof__(e))-1 > (__typeof__(e))0) ? (vp_big)(unsigned long long)vp_v_ : (vp_big)(long long)vp_v_, \
-           ((__typeof__(e))-1 > (__typeof__(e))0), (int)sizeof(vp_v_)); vp_v_; })
+/* e is expanded exactly once (nested probes would otherwise grow exponentially) */
+#define VP(id, e) __extension__({ __auto_type vp_v_ = (e); \
+    vp_obs((id), ((__typeof__(vp_v_))-1 > (__typeof__(vp_v_))0) ? (vp_big)(unsigned long long)vp_v_ : (vp_big)(long long)vp_v_, \
+           ((__typeof__(vp_v_))-1 > (__typeof__(vp_v_))0), (int)sizeof(vp_v_)); vp_v_; })
 #endif
 
 #endif
